@@ -826,7 +826,7 @@ def check_C17(tier, seed):
         if len(vals) > 1 and rp.coverage["counters"].get("mismatching-histories", 0) >= 6:
             rp.coverage["counters"]["mismatching-histories"] += 1
             rp.add_violation("xstd|C17|digest-mismatch|%s" % fam[key], "history %s (%s) behaves differently across builds (trace omitted: more than 6 mismatches)" % (key[1], fam[key]),
-                             {"engine": "xstd", "replay_cmd": ["false"]})
+                             {"engine": "xstd", "replay_cmd": [bins[min(per)], "--seed", str(seed + key[0] * 7919), "--cases", str(cases // nsh), "--len", "50", "--trace-history", key[1]]})
         elif len(vals) > 1:
             rp.coverage["counters"]["mismatching-histories"] = rp.coverage["counters"].get("mismatching-histories", 0) + 1
             # pick two disagreeing builds and show the first differing trace line
